@@ -200,7 +200,7 @@ def key_of(st, ctx):
     for side in (0, 1):
         for s in seqs_of(st[side]):
             raws.append(lib.raw_repr(s))
-            for view in (getattr(s, "_abs", None), getattr(s, "_rel", None)):
+            for view in (None if s._abs_stale else s._abs, None if s._rel_stale else s._rel):   # fresh views only
                 if view is not None:
                     for m in view._messages:
                         alias.append(ids.setdefault(id(m), len(ids)))
